@@ -25,8 +25,8 @@ from ..core import Check, HarnessError, Inconclusive, Layer, Outcome, Violation
 
 # Confirmed defects, excluded by construction so that the search continues past them (brief rule 2).  With a flag on,
 # the generator keeps JSON documents below the failing shape and counts the cases it had to shrink ("capped-…").
-EXCLUDE_D3 = True  # JSONSerializer: RecursionError escapes for nesting deeper than the C recursion limit (~1497)
-EXCLUDE_D3B = True  # JSONSerializer: ValueError escapes for an integer literal longer than sys.get_int_max_str_digits()
+EXCLUDE_D3 = False  # JSONSerializer: RecursionError escapes for nesting deeper than the C recursion limit (~1497)
+EXCLUDE_D3B = False  # JSONSerializer: ValueError escapes for an integer literal longer than sys.get_int_max_str_digits()
 D3_SAFE_DEPTH = 400
 D3B_SAFE_DIGITS = 4000
 
@@ -153,7 +153,8 @@ def _st_payload(draw: st.DrawFn, spec: dict, budget: int, *, stream: bool) -> di
         wrap = inner is not None
         b = (budget * 2) // 3 if wrap else budget
         templates = mutate.json_templates(1)
-        idx = draw(st.integers(0, len(templates) - 1))
+        # deep nesting and long integer literals (templates 0-6) are the shapes of the repaired defects D3/D3B: keep them frequent
+        idx = draw(st.one_of(st.sampled_from([0, 1, 3, 4, 5, 6]), st.integers(0, len(templates) - 1)))
         unit_bytes = sum(len(u) for u, c in mutate.json_templates(2)[idx] if c == 2)  # bytes added per unit of n
         n = draw(_sizes_near(max(1, b // max(1, unit_bytes))))
         parts = mutate.json_templates(n)[idx]
@@ -241,6 +242,13 @@ def _base_classes(case: dict, data: bytes) -> list[str]:
         classes.append("converter")
     for c in case.get("capped", ()):
         classes.append(f"excluded-{c}-capped")
+    if _has_json(spec):
+        # regression classes of the repaired defects D3 / D3B: documents beyond the interpreter's structural limits
+        doc = mutate.materialize(case["parts"])
+        if mutate.naive_depth(doc) > 1500:
+            classes.append("json-nesting>1500")
+        if mutate.max_digit_run(doc) > 4300:
+            classes.append("json-digit-run>4300")
     if len(data) > 4096:
         classes.append("input>4KiB")
     if len(data) > 32768:
@@ -405,6 +413,10 @@ def _run_fuzzer(case: dict) -> dict:
         if os.path.exists(sp):
             with open(sp) as f:
                 res["stats"] = json.load(f)
+        for line in (p.stdout + p.stderr).splitlines():
+            # the target's own counter is flushed every 2000 executions; libFuzzer's final statistics are exact
+            if line.startswith("stat::number_of_executed_units:"):
+                res["stats"]["execs"] = int(line.split(":")[-1])
         vp = os.path.join(out, "violation.json")
         if os.path.exists(vp):
             with open(vp) as f:
